@@ -14,7 +14,7 @@ ID = "C03"
 LEVEL = "exploration"
 RULE = (
     "Generated units (all features) x value batches (zero/ones/min/max, one-hot basis for messages <= 512 bits, random) "
-    "x a build configuration drawn per case from {gcc -O0,-O1,-O2,-O3, clang -O2} x {separate TUs, single TU}. A C driver "
+    "x a build configuration drawn per case from {gcc -O0,-O1,-O2,-O3, clang -O2} x {separate TUs, single TU} x c.struct_packing_alignment {unset, 1, 2, 4, 8}. A C driver "
     "generated from the model sets struct members by their documented names, calls Encode<Msg> into an exactly sized "
     "fenced buffer and Decode<Msg> on the reference bytes into a zeroed fenced struct. Oracle: C bytes == reference "
     "encoder == Python encode(); decoded leaves == values (signed leaves sign-extended). evaluations = (message, value, "
@@ -28,14 +28,14 @@ ASSUMPTIONS = [
     "bool members hold 0/1, enum members hold declared values",
     "struct/function names follow the documented scheme (checked separately by C15)",
 ]
-REQUIRED_LABELS = ["batch_array", "signed_nonstd", "width_gt32", "unaligned_start", "ext_array", "ext_message", "array_of_message", "alias_use", "cfg:single_tu", "cfg:clang", "cfg:gcc-O3"]
+REQUIRED_LABELS = ["batch_array", "signed_nonstd", "width_gt32", "unaligned_start", "ext_array", "ext_message", "array_of_message", "alias_use", "cfg:single_tu", "cfg:clang", "cfg:gcc-O3", "cfg:packed"]
 NT_LABELS = {"width_gt8", "unaligned_start", "batch_array", "signed_nonstd", "ext_message", "ext_array", "nested_value", "alias_use", "array"}
 
 CONFIGS = [("gcc", "-O0"), ("gcc", "-O1"), ("gcc", "-O2"), ("gcc", "-O3"), ("clang", "-O2")]
 
 
 def config_strategy() -> Any:
-    return st.fixed_dictionaries({"cc_opt": st.sampled_from(CONFIGS), "single_tu": st.booleans()})
+    return st.fixed_dictionaries({"cc_opt": st.sampled_from(CONFIGS), "single_tu": st.booleans(), "align": st.sampled_from([0, 0, 0, 1, 2, 4, 8])})
 
 
 def strategy(tier: str) -> Any:
@@ -46,6 +46,13 @@ def run_case(case: cases.SVCase, stats: Stats) -> None:
     cc, opt = case.config.get("cc_opt", ("gcc", "-O0"))
     single = case.config.get("single_tu", False)
     cfg = cexec.CConfig(cc=cc, opt=opt, single_tu=single)
+    align = case.config.get("align", 0)
+    if align:
+        # documented option: packed structs with the given alignment (power of two; 3/5/6/7 are recorded finding N6)
+        for f in case.unit.files:
+            if not any(o[0] == "c.struct_packing_alignment" for o in f.options):
+                f.options.append(("c.struct_packing_alignment", align))
+        stats.count("cfg:packed")
     stats.count(f"cfg:{cc}{opt}" if cc == "gcc" else "cfg:clang")
     if single:
         stats.count("cfg:single_tu")
